@@ -557,6 +557,7 @@ type qgen struct {
 	perMsg  map[string]int
 	nextID  int
 	tsBase  int64
+	marks   []int64 // instants worth landing on: lease ends as they were before an extend, nack times, ...
 }
 
 var routes = []string{"/r0", "/r1", "/r2"}
@@ -624,6 +625,11 @@ func (g *qgen) advance() {
 	case 8:
 		// land on / next to an interesting boundary: a lease_until or a next_run_at in the future
 		var bs []int64
+		for _, t := range g.marks {
+			if t > g.clock.now {
+				bs = append(bs, t, t)
+			}
+		}
 		for _, m := range g.snap {
 			if m.Luntil > g.clock.now {
 				bs = append(bs, m.Luntil)
@@ -707,11 +713,17 @@ func pad(r *rng, s string) (string, string) {
 // pick a lease id: mostly a currently held one, otherwise one from an earlier epoch, a blank or an unknown id
 func (g *qgen) someLease(allowPad bool) (string, lsym) {
 	r := g.r
-	var held []jmsg
+	var held, expiredHeld []jmsg
 	for _, m := range g.snap {
 		if m.St == "leased" {
 			held = append(held, m)
+			if m.Luntil <= g.clock.now {
+				expiredHeld = append(expiredHeld, m)
+			}
 		}
+	}
+	if len(expiredHeld) > 0 && r.chance(35) {
+		held = expiredHeld // an expired lease that no dequeue has swept yet
 	}
 	w := []int{70, 20, 4, 6}
 	if g.profile == "lease" {
@@ -817,6 +829,15 @@ func (g *qgen) genOp() jop {
 	if k >= 3 && k <= 9 && len(g.leases) == 0 && r.chance(85) {
 		k = 2
 	}
+	// an expired lease that no dequeue has swept yet is a rare state: use it while it lasts
+	for _, m := range g.snap {
+		if m.St == "leased" && m.Luntil <= g.clock.now {
+			if r.chance(30) {
+				k = 3 + r.intn(7)
+			}
+			break
+		}
+	}
 	switch k {
 	case 0:
 		e := g.newEnv()
@@ -904,7 +925,12 @@ func (g *qgen) genLeaseOp(kind int, durs []int64) jop {
 		return jop{T: "nack", L: l, Lsym: &s, D: pick(r, durs)}
 	case 5:
 		l, s := g.someLease(false)
-		return jop{T: "extend", L: l, Lsym: &s, D: pick(r, durs)}
+		for _, m := range g.snap {
+			if m.Lease == l && m.Luntil > 0 {
+				g.marks = append(g.marks, m.Luntil, m.Luntil+int64(10*time.Millisecond))
+			}
+		}
+		return jop{T: "extend", L: l, Lsym: &s, D: pick(r, []int64{0, -1, 1, int64(time.Millisecond), int64(time.Second), int64(5 * time.Second), int64(30 * time.Second), int64(20 * time.Millisecond)})}
 	case 6:
 		l, s := g.someLease(false)
 		return jop{T: "mark_dead", L: l, Lsym: &s, R: pick(r, []string{"no_retry", "max_retries", "policy_denied", "manual"})}
